@@ -1350,6 +1350,12 @@ def run_mutations(ctx, hbin, rng):
         mc("mutation-on-staged-restart-only-edit", "rolled-back", staged_file=base.replace('listen   ":18080"', 'listen   ":18097"')),
         mc("delete-on-staged-restart-only-edit", "rolled-back", kind="delete", application="app1", endpoint_name="ep1",
            staged_file=base.replace('listen   ":18080"', 'listen   ":18097"')),
+        # the operator's file has CRLF line endings (or a lone CR): valid input; a failed mutation puts THOSE bytes back
+        mc("crlf-post-write-validation-fails", "rolled-back", config=base.replace("\n", "\r\n"), post_write_fail=True),
+        mc("crlf-reload-needs-restart", "rolled-back", kind="custom", config=base.replace("\n", "\r\n"), set_ingress_listen=":18099"),
+        mc("crlf-move-post-write-validation-fails", "rolled-back", config=base.replace("\n", "\r\n"), application="app1", endpoint_name="ep1", route="/m2", post_write_fail=True),
+        mc("lone-cr-post-write-validation-fails", "rolled-back", config=base.replace("ingress {\n", "ingress {\r", 1), post_write_fail=True),
+        mc("crlf-upsert-new-endpoint", "applied", config=base.replace("\n", "\r\n")),
         mc("reload-secret-missing", "rolled-back", config=base_env, env_set={"VERIF_C18_M1": "pt-global"}, env_unset=["VERIF_C18_M1"]),
         mc("delete-reload-secret-missing", "rolled-back", kind="delete", application="app1", endpoint_name="ep1", config=base_env,
            env_set={"VERIF_C18_M1": "pt-global"}, env_unset=["VERIF_C18_M1"]),
